@@ -90,6 +90,9 @@ def run_all(ctx, sched):
         check_c09_errors(ctx, sched)
     if "c20" in extra:
         check_c20(ctx, sched)
+    if "c17net" in extra and "--disable_autoupdate" in sched.get("argv", []) and ctx["net"]:
+        violation("C17", "spawns-or-connects", "network/pip used although autoupdate is disabled",
+                  str(ctx["net"])[:300])
     if "c16uri" in extra:
         check_c16_uris(ctx, sched)
     if "c18" in extra:
